@@ -353,6 +353,26 @@ class _Run:
             self.guard(e, "item heights")
         return False
 
+    @staticmethod
+    def gridflow_display_flags_stale(gf) -> bool:
+        import urwid  # noqa: PLC0415
+
+        cells = {id(w) for w, _o in gf.contents}
+
+        def stale(c) -> bool:
+            if id(c) in cells:
+                return False
+            if isinstance(c, (urwid.Pile, urwid.Columns)):
+                kids = [x[0] for x in c.contents]
+                if c.selectable() != any(k.selectable() for k in kids):
+                    return True
+                return any(stale(k) for k in kids)
+            if isinstance(c, urwid.WidgetDecoration):
+                return stale(c.original_widget)
+            return False
+
+        return stale(gf._w)  # noqa: SLF001
+
     def replica_key_delivery(self, key):
         """Leaf ids a FRESH tree with the live structure and focus offers `key` to (None: not comparable)."""
 
@@ -375,6 +395,11 @@ class _Run:
                 if n.kids and n.base.selectable() != any(c.w.selectable() for c in n.kids if c is not None):
                     # selectable() of a container is only guaranteed right after ITS OWN contents were set (clause 5);
                     # a flag gone stale through an edit deeper down changes who is offered keys, which the statement allows
+                    self.res.probe("replica_skipped_stale_selectable_flag")
+                    return None
+                if n.kind == "GridFlow" and self.gridflow_display_flags_stale(n.base):
+                    # the same for the Pile / Columns a GridFlow arranges its cells in: they were built before a cell
+                    # changed its mind about being selectable further down
                     self.res.probe("replica_skipped_stale_selectable_flag")
                     return None
             except Exception as e:  # noqa: BLE001
